@@ -57,8 +57,77 @@ def table (inst : Inst) (col : Nat → ((Nat → Nat → Bool) → Float) × Flo
       ofList (fun g => fbits (nt.1 (fun t a => genoOf inst.parts i t a == g) / nt.2)) [0, 1, 2])
     cols) (List.range inst.nInd)
 
+/-! ### exact rational evaluation (`c08.fbrat`): no floating point anywhere on the model side -/
+
+/-- `"num/den"`, `"num"` or a JSON integer -/
+def ratOf? (j : Json) : Option Rat :=
+  match j.getInt? with
+  | .ok n => some (n : Rat)
+  | _ =>
+    match j.getStr? with
+    | .ok s =>
+      match s.splitOn "/" with
+      | [a] => a.toInt?.map (fun n => (n : Rat))
+      | [a, b] => do
+        let n ← a.toInt?
+        let d ← b.toNat?
+        if d = 0 then none else some ((n : Rat) / (d : Rat))
+      | _ => none
+    | _ => none
+
+def ratStr (q : Rat) : Json := Json.str (toString q.num ++ "/" ++ toString q.den)
+
+/-- `10^(-q/10)` is rational only for `q ≡ 0 (mod 10)`; `get_phred_probability(0)` = the double `0.9999` (`em0`) -/
+def phredRat? (em0 : Rat) (q : Nat) : Option Rat :=
+  if q = 0 then some em0 else if q % 10 = 0 then some (1 / ((10 : Rat) ^ (q / 10))) else none
+def recombRat? (q : Nat) : Option Rat := if q % 10 = 0 then some (1 / ((10 : Rat) ^ (q / 10))) else none
+
+def parseParamsRat (inst : Inst) (j : Json) : Option (Params Rat) := do
+  let recomb ← getNatList? j "recomb"
+  let recA ← recomb.mapM recombRat?
+  let pri ← (← getList? j "priors").mapM (fun ind => do (← asArr? ind).mapM (fun col => do (← asArr? col).mapM ratOf?))
+  let priA : Array (Array (Array Rat)) := (pri.map (fun ind => (ind.map List.toArray).toArray)).toArray
+  let recA := recA.toArray
+  -- every quality that occurs must be exactly representable
+  -- `result[0] = 0.9999;` stores the *double* nearest to 0.9999 in the long double table: the caller passes its exact value
+  let em0 : Rat := match getObj? j "em0" with | some v => (ratOf? v).getD ((9999 : Rat) / 10000) | none => (9999 : Rat) / 10000
+  let quals := inst.reads.flatMap (fun r => r.entries.map (·.2.2))
+  let _ ← quals.mapM (phredRat? em0)
+  some { em := fun q => (phredRat? em0 q).getD 0
+         rho := fun c => recA.getD c 1
+         prior := fun i c g => ((priA.getD i #[]).getD c #[]).getD g 0 }
+
+def tableRat (inst : Inst) (col : Nat → ((Nat → Nat → Bool) → Rat) × Rat) : Json :=
+  let cols := (List.range inst.nCols).map col
+  ofList (fun i => ofList (fun (nt : ((Nat → Nat → Bool) → Rat) × Rat) =>
+      ofList (fun g => ratStr (nt.1 (fun t a => genoOf inst.parts i t a == g) / nt.2)) [0, 1, 2])
+    cols) (List.range inst.nInd)
+
 def handle (op : String) (j : Json) : Option Json :=
-  if op == "c08.fb" then
+  if op == "c08.fbrat" then
+    -- the posterior over exact rationals: the model at `K = ℚ` with scaling 1 (= the brute-force posterior by
+    -- `forward_backward_posterior`; with "brute": true the plain enumeration is evaluated as well and must be identical)
+    match parseInst j with
+    | none => some badInput
+    | some inst =>
+      if !inst.WF then some (Json.mkObj [("error", Json.str "not-WF")]) else
+      match parseParamsRat inst j with
+      | none => some (Json.mkObj [("error", Json.str "not-exactly-representable")])
+      | some p =>
+        let F := inst.frame
+        let W := inst.weights p
+        let S : Scal Rat := Scal.one
+        let lik := tableRat inst (fun c =>
+          let cells := fbCells F W S c
+          let nAct := (F.col c).nAct
+          (fun sel => numerOf W nAct cells sel, numerOf W nAct cells (fun _ _ => true)))
+        let zero := (List.range inst.nCols).any (fun c => total F W S c == 0)
+        let base := [("lik", lik), ("zero_total", Json.bool zero)]
+        if (getBool? j "brute").getD false then
+          some (Json.mkObj (base ++ [("post", tableRat inst (fun c =>
+            (fun sel => specNumer F W c sel, specNumer F W c (fun _ _ => true))))]))
+        else some (Json.mkObj base)
+  else if op == "c08.fb" then
     match parseInst j, parseParams j, parseScal j with
     | some inst, some p, some S =>
       if !inst.WF then some (Json.mkObj [("error", Json.str "not-WF")]) else
